@@ -639,10 +639,11 @@ def group_by_first(items):
 
 CHECK = Check(
     prop="C02",
-    gen=["Multipart", "Urlencode", "FormOptions"],
-    modules=["WzVerif.Props.C02"],
+    gen=["Multipart", "Urlencode", "FormOptions", "PyFns_Encoder"],
+    modules=["WzVerif.Props.C02", "WzVerif.Props.C02T"],
     streams=[UrlKernels(), OptionsStream(), EncoderEvents(), ClientEncode(), ClientRoundtrip()],
     assumptions=[
+        "C02T (MultipartEncoder.send_event as regenerated from the source): one translation per event class (isinstance decided by the declared dataclass; Field/File names are str as declared - a None name is the model's AttributeError arm, outside the translation); str.encode() is UTF-8 on surrogate-free text; str.lower() as the prelude models it (ASCII)",
         "urllib.parse quote_plus / urlencode / unquote / parse_qsl are stdlib: modelled by hand-written functions and validated by stream urlencode-kernels, not verified",
         "UTF-8 is Lean core's encoder / strict decoder (round trip proved in Util/Bytes.lean); lone surrogates are outside the domain (Python str may hold them, List Char cannot)",
         "parse_options_header is modelled in Model/FormOptions.lean (token / quoted parameters, RFC 2231 numbered continuations); the charset form key*=… is outside the model",
